@@ -294,6 +294,8 @@ def battery(ureg, g, extra, nit, rec):
                 put(("offset", c, x), lambda c=c, x=x, t=t: fstr(ureg.Quantity(nit(x), c).to(t["ref"]).magnitude))
         put(("compatible", c), lambda c=c: sorted(str(u) for u in ureg.get_compatible_units(c, "root"))
             if t["dims"] else [])
+    for dname in g.derived_dims:
+        put(("derived-dim", dname), lambda dname=dname: sorted((k, fstr(v)) for k, v in dict(ureg.get_dimensionality(dname)).items()))
     if "group" in extra:
         put(("group",), lambda: sorted(ureg.get_group("GX", False).members))
     if "system" in extra:
@@ -323,11 +325,14 @@ def run_generated(spec, rec, rng, pint):
                 # canonical order, plain layout, list of lines
                 variants = [("lines", stm, 0)]
                 sh = [s for s in stm if s[1] in ("unit", "prefix")]
-                rest = [s for s in stm if s[1] not in ("unit", "prefix")]
+                dims = [s for s in stm if s[1] == "dim"]
+                rest = [s for s in stm if s[1] not in ("unit", "prefix", "dim")]
                 rng.shuffle(sh)
-                variants.append(("lines-shuffled", sh + rest, rng.randrange(4)))
+                rng.shuffle(dims)      # derived dimensions may refer to dimensions written further down
+                variants.append(("lines-shuffled", sh + dims + rest, rng.randrange(4)))
                 rng.shuffle(sh)
-                variants.append(("file-shuffled", list(sh) + rest, rng.randrange(4)))
+                dims = list(reversed(dims))
+                variants.append(("file-shuffled", dims + list(sh) + rest, rng.randrange(4)))
                 variants.append(("define", stm, 0))
                 variants.append(("diskcache-cold", stm, 1))
                 variants.append(("diskcache-warm", stm, 1))
@@ -384,7 +389,11 @@ def run_generated(spec, rec, rng, pint):
                                                            "want": str(t["factor"]), "nit": nitname},
                                           path="lines", probe="root")
                     else:
-                        val = F(Decimal(gf[1:])) if gf.startswith("D") else F(float(gf)) if "." in gf or "e" in gf or "n" in gf else F(gf)
+                        try:
+                            val = F(Decimal(gf[1:])) if gf.startswith("D") else F(float(gf)) if "." in gf or "e" in gf or "n" in gf else F(gf)
+                        except (OverflowError, ValueError):
+                            rec.count("numeric_range_skipped")   # inf / nan: the float factor left the range
+                            continue
                         tol = F(1, 10 ** 20) if nitname == "decimal" else F(1, 10 ** 11)
                         lo, hi = F(1, 10 ** 80), F(10 ** 80)   # beyond this float partial products go subnormal
                         if lo < abs(t["factor"]) < hi and abs(val - t["factor"]) > abs(t["factor"]) * tol:
@@ -394,6 +403,17 @@ def run_generated(spec, rec, rng, pint):
                         if nitname == "decimal" and not gf.startswith("D") and gf not in ("1",) and "." in gf:
                             rec.violation("literal-type", {"text": base_text, "unit": c, "got": gf, "nit": nitname},
                                           path="lines", probe="root")
+                for dname, dref in g.derived_dims.items():
+                    for path, ans in answers.items():
+                        got = ans.get(("derived-dim", dname))
+                        want = sorted((k, str(v)) for k, v in dref.items())
+                        gotn = sorted((k, str(F(v[1:]) if v.startswith("D") else F(v) if "." not in v and "e" not in v else F(float(v)).limit_denominator(64)))
+                                      for k, v in got) if not isinstance(got, str) else got
+                        rec.count("derived_dimension_checks")
+                        if gotn != want:
+                            rec.violation("truth-derived-dimension", {"text": base_text, "dimension": dname, "got": str(got)[:200],
+                                                                      "want": str(want), "nit": nitname, "path": path},
+                                          path=path, probe="derived-dim")
                 for s, c in g.spell.items():
                     if ref.get(("name", s)) != c:
                         rec.violation("truth-name", {"text": base_text, "spelling": s, "got": ref.get(("name", s)),
